@@ -14,7 +14,7 @@ for c in "$@"; do
   echo "$c rc=$rc $(echo $patch | sed "s#/tmp/out-##;s#/patch.diff##") :: $first"
 done
 k=$(python3 -c "import hashlib,sys;print(hashlib.sha1(sys.argv[1].encode()).hexdigest()[:10])" "$d")
-rm -rf /verif/.work/found-$k /verif/.work/evidence-$k
+rm -rf /verif/.work/found-$k /verif/.work/evidence-$k /verif/harness/gen/*-$k
 rm -rf "$d" /verif/harness/.stage/$(python3 -c "import hashlib,sys;print(hashlib.sha1(sys.argv[1].encode()).hexdigest()[:10])" "$d") 
 rm -f /verif/harness/.mod/$(python3 -c "import hashlib,sys;print(hashlib.sha1(sys.argv[1].encode()).hexdigest()[:10])" "$d").*
 rm -rf /verif/harness/.bin/$(python3 -c "import hashlib,sys;print(hashlib.sha1(sys.argv[1].encode()).hexdigest()[:10])" "$d")
